@@ -45,26 +45,38 @@ Record case := mkCase {
   c_obs : list (list obs);     (* implementation observations per event *)
   c_dumps : list ddelta }.     (* implementation state after each event, delta-encoded *)
 
-Fixpoint mism_from (i : nat) (s : state) (prev : dump) (evs : list (event * list (nat * wref)))
+Definition asg_eqb (a b : (N * N) * list nat) : bool := nn_eqb (fst a) (fst b) && same_set Nat.eqb (snd a) (snd b).
+Definition new_assignments (pre post : dump) : list ((N * N) * list nat) :=
+  filter (fun a => negb (existsb (asg_eqb a) (assignments pre))) (assignments post).
+
+(* Runs the model along the implementation's history.  The first step at
+   which outputs or state differ is remembered as the mismatch; the run then
+   continues (this is the search for a concrete failing input once the
+   correspondence is broken): the model's choice of (worker, task) is the
+   documented hand-out policy (theorems pick_minimal / schedule candidates),
+   so an event in which the implementation newly assigns a different task to
+   a worker than the policy prescribes for this history violates C04. *)
+Fixpoint mism_from (i : nat) (s : state) (prev : dump) (first : verdict) (evs : list (event * list (nat * wref)))
     (obss : list (list obs)) (dumps : list ddelta) : verdict :=
   match evs, obss, dumps with
   | e :: evs', o :: obss', dl :: dumps' =>
     let d := apply_delta prev dl in
     let '(s', mo) := step s e in
-    (* the model's choice of (worker, task) is the documented policy (theorem
-       pick_in_policy); an implementation handing a different task to a worker
-       from an agreeing pre-state violates C04 on this very history *)
-    if negb (same_set (fun a b => nn_eqb (fst a) (fst b) && same_set Nat.eqb (snd a) (snd b))
-                      (assignments (observe s')) (assignments d))
-       && String.eqb (dump_diff (observe s) prev) ""
+    if negb (same_set asg_eqb (new_assignments (observe s) (observe s')) (new_assignments prev d))
     then VViolation i "C04:assignment-differs-from-policy"
-    else if negb (obs_list_eqb mo o) then VMismatch i "outputs"
-    else match dump_diff (observe s') d with
-         | EmptyString => mism_from (S i) s' d evs' obss' dumps'
-         | what => VMismatch i what
-         end
-  | [], [], [] => VOk
-  | _, _, _ => VMismatch i "malformed case"
+    else
+      let first' :=
+        match first with
+        | VOk => if negb (obs_list_eqb mo o) then VMismatch i "outputs"
+                 else match dump_diff (observe s') d with
+                      | EmptyString => VOk
+                      | what => VMismatch i what
+                      end
+        | _ => first
+        end in
+      mism_from (S i) s' d first' evs' obss' dumps'
+  | [], [], [] => first
+  | _, _, _ => match first with VOk => VMismatch i "malformed case" | _ => first end
   end.
 
 Fixpoint viol_from (i : nat) (cfg : config) (t0 : Z) (m : mon) (pre : dump) (evs : list (event * list (nat * wref)))
@@ -83,4 +95,4 @@ Definition empty_dump : dump := mkDump 0 [] [] [] 0 [].
 
 Definition check_case (c : case) : verdict :=
   vcombine (viol_from 0 (c_cfg c) (c_t0 c) mon0 empty_dump (c_events c) (c_obs c) (c_dumps c))
-           (mism_from 0 (init (c_cfg c) (c_t0 c)) empty_dump (c_events c) (c_obs c) (c_dumps c)).
+           (mism_from 0 (init (c_cfg c) (c_t0 c)) empty_dump VOk (c_events c) (c_obs c) (c_dumps c)).
